@@ -239,6 +239,85 @@ def c12_save_load(e1: int, x1: int, m1: int, eq: int, xq: int, mq: int, override
     return _save_load((e1, x1, m1), (eq, xq, mq), override, (er, xr, mr))
 
 
+def _history3(p1, p2, which, third_new, p3):
+    """save(p1); save(p2); then either a forced refresh of p1 or p2 (which) or a third parameter set p3; finally every
+    registered parameter set must load back the data saved for it last, and nothing else may have been rewritten"""
+    if _key(*p1) == _key(*p2):
+        return SKIP
+    fs = _FS()
+    with patched((idx, 'open', fs.open), (idx, 'pickle', _Pickle)):
+        d = IndexDir(Path('/nonexistent-mpgverif-index'))
+        d.save_canonical_peptides({'POOL1'}, _cp(*p1))
+        d.save_canonical_peptides({'POOL2'}, _cp(*p2))
+        want = {_key(*p1): {'POOL1'}, _key(*p2): {'POOL2'}}
+        if third_new:
+            if _key(*p3) in want:
+                return SKIP
+            d.save_canonical_peptides({'POOL3'}, _cp(*p3))
+            want[_key(*p3)] = {'POOL3'}
+        else:
+            target = p1 if which else p2
+            d.save_canonical_peptides({'FRESH'}, _cp(*target), override=True)
+            want[_key(*target)] = {'FRESH'}
+        for params in (p1, p2, p3):
+            k = _key(*params)
+            try:
+                got = d.load_canonical_peptides(_cp(*params))
+            except ValueError:
+                if k in want:
+                    return -6
+                continue
+            if k not in want:
+                return -7
+            if got != want[k]:
+                return -8          # a pool was overwritten by / confused with the pool of other parameters
+    return OK
+
+
+_ENC_H = ['moPepGen.index.IndexDir.save_canonical_peptides / load_canonical_peptides',
+          'moPepGen.index.IndexMetadata.register_canonical_pool / get_canonical_pool'] + ENC
+
+
+@cond('C12', bounds='history: save(p1); save(p2); forced refresh of the OLDER pool p1; load p1 and p2: enzyme in 2, '
+      'miscleavage 0..2 (dict equality of the parameter records realises the value)', encodes=_ENC_H, stubs=['moPepGen.index.open / pickle -> dict-backed file system'],
+      codes=CODES_S, shim=False, timeout=400)
+def c12_refresh_older(e1: int, m1: int, e2: int, m2: int) -> int:
+    """
+    pre: 0 <= e1 <= 1 and 0 <= e2 <= 1
+    pre: 0 <= m1 <= 2 and 0 <= m2 <= 2
+    post: _ >= 0
+    """
+    e1, e2, m1, m2 = concretize(e1, 0, 1), concretize(e2, 0, 1), concretize(m1, 0, 2), concretize(m2, 0, 2)
+    return _history3((e1, 0, m1), (e2, 0, m2), True, False, (e2, 0, m2))
+
+
+@cond('C12', bounds='history: save(p1); save(p2); forced refresh of the NEWER pool p2; load p1 and p2: enzyme in 2, '
+      'miscleavage 0..2 (dict equality of the parameter records realises the value)', encodes=_ENC_H, stubs=['moPepGen.index.open / pickle -> dict-backed file system'],
+      codes=CODES_S, shim=False, timeout=400)
+def c12_refresh_newer(e1: int, m1: int, e2: int, m2: int) -> int:
+    """
+    pre: 0 <= e1 <= 1 and 0 <= e2 <= 1
+    pre: 0 <= m1 <= 2 and 0 <= m2 <= 2
+    post: _ >= 0
+    """
+    e1, e2, m1, m2 = concretize(e1, 0, 1), concretize(e2, 0, 1), concretize(m1, 0, 2), concretize(m2, 0, 2)
+    return _history3((e1, 0, m1), (e2, 0, m2), False, False, (e2, 0, m2))
+
+
+@cond('C12', bounds='history: save(p1); save(p2); save(p3); load all three: enzyme in 2, miscleavage 0..2',
+      encodes=_ENC_H, stubs=['moPepGen.index.open / pickle -> dict-backed file system'], codes=CODES_S, shim=False,
+      timeout=900, tiers=('thorough',))
+def c12_third_pool(e1: int, m1: int, e2: int, m2: int, e3: int, m3: int) -> int:
+    """
+    pre: 0 <= e1 <= 1 and 0 <= e2 <= 1 and 0 <= e3 <= 1
+    pre: 0 <= m1 <= 2 and 0 <= m2 <= 2 and 0 <= m3 <= 2
+    post: _ >= 0
+    """
+    e1, e2, e3 = concretize(e1, 0, 1), concretize(e2, 0, 1), concretize(e3, 0, 1)
+    m1, m2, m3 = concretize(m1, 0, 2), concretize(m2, 0, 2), concretize(m3, 0, 2)
+    return _history3((e1, 0, m1), (e2, 0, m2), False, True, (e3, 0, m3))
+
+
 # --------------------------------------------------------------------------
 # plumbing
 # --------------------------------------------------------------------------
